@@ -71,6 +71,11 @@ type Fail struct {
 	Sig    string `json:"sig"`
 	Case   Case   `json:"case"`
 	Detail string `json:"detail"`
+	// the enumeration this failure was found in: a verdict that depends on earlier evaluations
+	// (hidden state in the code under test) only reproduces with the same history
+	Tier  string `json:"tier,omitempty"`
+	Shard int    `json:"shard"`
+	Of    int    `json:"of,omitempty"`
 }
 
 type stats struct {
